@@ -2,6 +2,7 @@ package main
 
 import (
 	"fmt"
+	"go/constant"
 	"go/token"
 	"go/types"
 	"sort"
@@ -14,11 +15,12 @@ func init() {
 	register(&Property{
 		ID:        "C43",
 		Title:     "Cluster routes take the path their pool's encapsulation requires",
-		Technique: "static analysis: value provenance of the SameSubnet flag (phi/const webs), cut-set guards on the no-encap/blackhole decisions, list/route-class pairing (go/ssa over felix/calc and felix/dataplane/linux)",
+		Technique: "static analysis: value provenance of the SameSubnet flag (phi/const webs), cut-set guards on the no-encap/blackhole decisions, cut-set reachability of the node-address fallback, list/route-class pairing (go/ssa over felix/calc and felix/dataplane/linux)",
 		DesignRef: "DESIGN.md §3 C43",
 		Explanation: "Decides: (samesubnet) every store of RouteUpdate.SameSubnet is `poolFlag && nodeInOurSubnet(rt.DstNodeName,…)` where poolFlag becomes true only under Pool.CrossSubnet, nodeInOurSubnet answers true only through <our node's CIDR>.Contains(<named node's address>), and the pool's CrossSubnet flag tests every encap-mode field of the IP pool against encap.CrossSubnet; " +
 			"(noencap) routeManager.noEncapRoute returns a target only under ippoolType==NO_ENCAP or SameSubnet, with a known DstNodeIp which is the gateway, type no-encap; updateRoutes asks the tunnel function only when noEncapRoute returned nil and hands the no-encap list to the same-subnet route class and the tunnel list to the tunnel class; " +
-			"(localblock) routeIsLocalBlock can return true only for LOCAL_WORKLOAD routes of the manager's pool type that are not a local workload's own address and not a /32 (/128) route; blackhole routes are computed from the map filled only under routeIsLocalBlock.",
+			"(localblock) routeIsLocalBlock can return true only for LOCAL_WORKLOAD routes of the manager's pool type that are not a local workload's own address and not a /32 (/128) route; blackhole routes are computed from the map filled only under routeIsLocalBlock; " +
+			"(fallback) in every function of felix/calc that inspects a node's Spec.BGP and reaches resources.FindNodeAddress (route resolver, host-metadata passthru and its address helper), the InternalIP/ExternalIP fallback of each IP version is reachable for a node whose BGP spec is present but has no IPv4/IPv6 address (not cut off by `BGP == nil` or `BGP address != \"\"` edges), so the owning node's address (DstNodeIp, same-subnet test) is not lost for such nodes.",
 		NotDecided: "Which CIDRs/trie entries the resolver walks for a destination, the order-independence of the resolver's recomputation (dirty-CIDR marking), the tunnel route functions of the vxlan/ipip managers (VTEP lookup), routetable's reconciliation.",
 		Assumptions: []string{
 			"go/types + go/ssa (x/tools v0.50.0) model of the current source, CGO_ENABLED=0 build",
@@ -29,6 +31,13 @@ func init() {
 		Fixtures: []Fixture{
 			{Name: "seeded C43-1 shape: the IPv6 re-evaluation trigger compares the IPv4 CIDRs", File: "felix/calc/l3_route_resolver.go",
 				Old: "\t\tif oldNodeInfo.V6CIDR != myNewV6CIDR {\n", New: "\t\tif oldNodeInfo.V4CIDR != myNewV4CIDR {\n", Expect: "C43.twin/L3RouteResolver.onNodeUpdate"},
+			{Name: "seeded C43-4 shape: route resolver takes the BGP branch whenever a BGP spec exists", File: "felix/calc/l3_route_resolver.go",
+				Old: "\t\tif node.Spec.BGP != nil && (node.Spec.BGP.IPv4Address != \"\" || node.Spec.BGP.IPv6Address != \"\") {\n", New: "\t\tif node.Spec.BGP != nil {\n", Expect: "C43.fallback/L3RouteResolver.OnResourceUpdate"},
+			{Name: "host-metadata address helper gives up when a BGP spec exists but holds no address", File: "felix/calc/dataplane_passthru.go",
+				Old: "\t\t\t}).Warn(\"Ignoring Node BGP address: not a CIDR\")\n\t\t}\n\t}\n", New: "\t\t\t}).Warn(\"Ignoring Node BGP address: not a CIDR\")\n\t\t}\n\t\treturn \"\"\n\t}\n", Expect: "C43.fallback/extractNodeAddress"},
+			{Name: "passthru only consults the address helper for nodes without a BGP spec", File: "felix/calc/dataplane_passthru.go",
+				Old: "\tinfo := &HostInfo{\n\t\tlabels:  node.Labels,\n\t\tip4Addr: extractNodeAddress(node, 4),\n\t\tip6Addr: extractNodeAddress(node, 6),\n\t}\n",
+				New: "\tinfo := &HostInfo{labels: node.Labels}\n\tif bgpSpec == nil {\n\t\tinfo.ip4Addr = extractNodeAddress(node, 4)\n\t\tinfo.ip6Addr = extractNodeAddress(node, 6)\n\t} else {\n\t\tinfo.ip4Addr, info.ip6Addr = bgpSpec.IPv4Address, bgpSpec.IPv6Address\n\t}\n", Expect: "C43.fallback/DataplanePassthru.processKindNode"},
 			{Name: "same-subnet is pool flag OR node-in-subnet", File: "felix/calc/l3_route_resolver.go",
 				Old: "rt.SameSubnet = poolAllowsCrossSubnet && c.nodeInOurSubnet(rt.DstNodeName, ipFamily)", New: "rt.SameSubnet = poolAllowsCrossSubnet || c.nodeInOurSubnet(rt.DstNodeName, ipFamily)", Expect: "C43.samesubnet/store"},
 			{Name: "cross-subnet flag also set for always-encapsulated pools", File: "felix/calc/l3_route_resolver.go",
@@ -62,9 +71,11 @@ func runC43(c *Ctx) {
 	c.Rule("C43.samesubnet", "E-FLOW/E-GUARD", "RouteUpdate.SameSubnet = poolFlag(true only under Pool.CrossSubnet) && nodeInOurSubnet(rt.DstNodeName); nodeInOurSubnet true only via ourCIDR.Contains(theirAddr); pool flag tests every encap.Mode field of the pool", 3)
 	c.Rule("C43.noencap", "E-GUARD/E-FLOW", "noEncapRoute non-nil only under NO_ENCAP||SameSubnet with DstNodeIp as gateway; tunnel function consulted only if it returned nil; lists go to their route classes", 5)
 	c.Rule("C43.localblock", "E-GUARD", "routeIsLocalBlock true only for LOCAL_WORKLOAD, matching pool type, not LocalWorkload, not /32|/128; localIPAMBlocks filled only under it and is the source of blackhole routes", 6)
+	c.Rule("C43.fallback", "E-GUARD (reachability)", "felix/calc: wherever a node's host address is derived from Spec.BGP with the Spec.Addresses fallback (resources.FindNodeAddress, directly or through a helper), the fallback for each IP version stays reachable for a node whose BGP spec is present but carries no IPv4/IPv6 address: some fallback call is reachable without crossing an `BGP == nil` edge or a `BGP.IPv4Address/IPv6Address != \"\"` edge", 5)
 	x.sameSubnet()
 	x.noEncap()
 	x.localBlock()
+	x.fallback()
 	// Shared disciplines implemented in other properties' files, armed here under C43's id:
 	// the IPv4/IPv6 twin blocks of the route resolver (a v6 block testing v4 fields leaves IPv6 routes
 	// with a stale same-subnet flag), and the shared route manager retracting what it held for a
@@ -711,4 +722,116 @@ func (x *c43) localBlock() {
 		}
 	}
 	c.Check(ok, "C43.localblock/blackhole-source", p.Pos(upd.Pos()), "blackhole routes are computed from localIPAMBlocks", "the blackhole route class is not fed from a function of localIPAMBlocks")
+}
+
+// ---------------------------------------------------------------- fallback --
+
+// fallback: the owning node's address (RouteUpdate.DstNodeIp, and with it the
+// same-subnet decision) comes from Spec.BGP.IPv4Address/IPv6Address when BGP
+// supplies one and otherwise from the InternalIP/ExternalIP entries of
+// Spec.Addresses.  "Spec.BGP != nil" does not mean "BGP supplies the address":
+// IPAM writes tunnel addresses into Spec.BGP on clusters whose nodes have no BGP
+// address.  Necessary condition, decided on every function of felix/calc that
+// both inspects a *NodeBGPSpec and reaches resources.FindNodeAddress (directly
+// or through ≤2 levels of helpers of the package): for each IP version some
+// fallback call must be reachable on a path that is consistent with
+// {BGP != nil, BGP.IPv4Address == "", BGP.IPv6Address == ""}, i.e. that crosses
+// neither an edge establishing BGP == nil nor one establishing that a BGP
+// address is non-empty.  Conditions the rule does not recognise cut nothing, so
+// extracted predicates / boolean temporaries keep it silent.
+func (x *c43) fallback() {
+	c, p := x.c, x.p
+	const apiPkg = "libcalico-go/lib/apis/internalapi"
+	find, _ := p.LookupExt("libcalico-go/lib/resources", "FindNodeAddress").(*types.Func)
+	v4F, _ := p.LookupExt(apiPkg, "NodeBGPSpec.IPv4Address").(*types.Var)
+	v6F, _ := p.LookupExt(apiPkg, "NodeBGPSpec.IPv6Address").(*types.Var)
+	if find == nil || v4F == nil || v6F == nil {
+		c.Lost("resources.FindNodeAddress / internalapi.NodeBGPSpec.IPv4Address / IPv6Address")
+	}
+	isBGPPtr := func(t types.Type) bool {
+		_, ok := t.Underlying().(*types.Pointer)
+		return ok && qualTypeName(t) == apiPkg+".NodeBGPSpec"
+	}
+	isFind := func(g *types.Func) bool { return g == find }
+	bgpNil := func(cond ssa.Value, pol bool) bool {
+		v, isNil, ok := c21NilCmp(cond, pol)
+		return ok && isNil && isBGPPtr(v.Type())
+	}
+	isBGPAddr := func(v ssa.Value) bool {
+		ls := c43Leaves(v)
+		if len(ls) == 0 {
+			return false
+		}
+		for _, l := range ls {
+			if fv := fieldVar(l.v); fv == nil || (fv != v4F && fv != v6F) {
+				return false
+			}
+		}
+		return true
+	}
+	addrSet := eqCond(false, isBGPAddr, func(v ssa.Value) bool {
+		cv, ok := constOf(v)
+		return ok && cv.ExactString() == `""`
+	})
+	cut := anyOf(bgpNil, addrSet)
+
+	nFn := 0
+	for _, f := range p.AllFuncs() {
+		if f.Pkg == nil || f.Pkg.Pkg.Path() != calicoPrefix+calcPkg || f.Blocks == nil {
+			continue
+		}
+		// fallback sites of f, grouped by the IP version they ask for
+		groups := map[string][]*ssa.Call{}
+		touchesBGP := false
+		allInstrs(f, false, func(_ *ssa.Function, in ssa.Instruction) {
+			if v, ok := in.(ssa.Value); ok && isBGPPtr(v.Type()) {
+				touchesBGP = true
+			}
+			call, ok := in.(*ssa.Call)
+			if !ok {
+				return
+			}
+			direct := calleeOf(call.Common()) == find
+			if !direct {
+				sf := calleeFn(call.Common())
+				if sf == nil || sf.Pkg != f.Pkg || !containsCall(sf, 2, isFind) {
+					return
+				}
+			}
+			var ints []string
+			for _, a := range call.Common().Args {
+				if cv, ok := constOf(a); ok && cv.Kind() == constant.Int {
+					ints = append(ints, cv.ExactString())
+				}
+			}
+			g := "any"
+			if len(ints) == 1 {
+				g = "v" + ints[0]
+			}
+			groups[g] = append(groups[g], call)
+		})
+		if len(groups) == 0 || !touchesBGP {
+			continue
+		}
+		nFn++
+		for _, g := range sortedKeys(groups) {
+			reach := false
+			for _, call := range groups[g] {
+				if !guardedCut(call, cut) {
+					reach = true
+				}
+			}
+			what := "the Spec.Addresses fallback"
+			if g != "any" {
+				what = "the IP" + g + " Spec.Addresses fallback"
+			}
+			c.Check(reach, "C43.fallback/"+fnName(f)+"/"+g, p.Pos(groups[g][0].Pos()),
+				what+" (FindNodeAddress InternalIP/ExternalIP) is reachable for a node whose BGP spec is set but holds no IPv4/IPv6 address",
+				fnName(f)+": "+what+" (FindNodeAddress) can only be reached when Spec.BGP == nil or after a BGP address was found non-empty: a node whose BGP spec carries no IPv4Address/IPv6Address (only an AS number or the IPIP tunnel address IPAM writes there) never gets its InternalIP/ExternalIP, "+
+					"so it is recorded without an address and the routes to its blocks are emitted with an empty DstNodeIp and SameSubnet=false (no direct route for unencapsulated / same-subnet pools)")
+		}
+	}
+	if nFn < 2 {
+		c.Lost("felix/calc: functions that inspect Spec.BGP and reach resources.FindNodeAddress (%d, expected the route resolver and the host-metadata passthru)", nFn)
+	}
 }
